@@ -280,7 +280,18 @@ DESIGN_ACTIONS = ["RPickShape", "RAddLine", "RChooseAll", "RChooseCode", "RChoos
 
 
 def run(check: core.Check) -> None:
+    import time
+
     quick = check.tier == "quick"
+    phases: dict[str, float] = {}
+    check.cov["phase_wall_s"] = phases
+    t_last = [time.time()]
+
+    def mark(name: str) -> None:
+        now = time.time()
+        phases[name] = round(now - t_last[0], 1)
+        t_last[0] = now
+
     rnd = random.Random(check.seed)
     check.assumptions += [
         "TLC 1.8.0; Suppression.tla's RefReported/OutputOK is the README's meaning of ignore comments "
@@ -325,6 +336,7 @@ def run(check: core.Check) -> None:
 
     with ThreadPoolExecutor(3 if quick else 2) as ex:
         results = dict(zip(jobs, ex.map(tlc, jobs.values())))
+    mark("design-tlc")
     for name in ("base", "base-emit", "enable", "catchflat", "catchblock", "struct"):
         core.require_ok(results[name], f"C11 design run {name} ({jobs[name][1]})")
         check.add_tlc(f"{name}:{jobs[name][1]}", results[name])
@@ -361,15 +373,18 @@ def run(check: core.Check) -> None:
         "non-trivial = has both a diagnostic and an ignore comment"
     )
     judge(check, cases, "tlc-exhaustive")
+    mark("base-replay")
     # base, beyond: TLC simulation of longer files
     sim_cases = core.simulate_cases("SuppressionEmit", "Suppression.sim.cfg", 800 if quick else 40000, depth=14,
                                     seed=check.seed + 11, check=check, first_num=900 if quick else None)
     judge(check, sim_cases, "tlc-simulate")
+    mark("base-simulate")
     # the same cases with the codes disabled through per-module overrides of one configuration file, two modules with
     # different settings sharing one Checker
     ov = list(cases)
     rnd.shuffle(ov)
     judge_overrides(check, ov[: 600 if quick else 40000], "per-module-override")
+    mark("base-overrides")
 
     # ---- 3. routes, S->C
     flat = core.emitted_json(results["catchflat"])
@@ -386,18 +401,22 @@ def run(check: core.Check) -> None:
     judge_ctor(check, flat_s, "routes-catch-flat/constructor-settings")
     per_block = judge_ctor(check, block_s, "routes-catch-block/constructor-settings")
     selftest_trace(check, per_block)
+    mark("routes-constructor-replay")
     # structure x command line x configuration file, through main()
     want = 250 if quick else 4000
     sims = []
     for cfg, seed in (("SuppressionRoutes.sim.cfg", 17), ("SuppressionRoutes.simblock.cfg", 29)):
         sims += _simulate_routes(check, cfg, want, check.seed + seed)
     check.cov["routes_cases"]["simulated"] = len(sims)
+    mark("routes-simulate")
     judge_cli(check, sims, "routes-structure/main()")
     # the flat catch cases' files under full requests: the enabling dimension exhaustively chosen by TLC is too large to
     # replay, so requests are taken from the simulated cases and files from the exhaustive slice
     mixed = [{"lines": f["lines"], "cfg": s["cfg"]} for f, s in zip(rnd.sample(flat, min(len(flat), len(sims))), sims)]
     judge_cli(check, mixed, "routes-catch-flat/main()")
+    mark("routes-main-replay")
     judge_cli(check, rnd.sample(sims, 10 if quick else 60), "routes-structure/python -m pyanalyze", subprocess_route=True)
+    mark("routes-subprocess-replay")
 
 
 def _simulate_routes(check: core.Check, cfg: str, want: int, seed: int) -> list[dict]:
